@@ -14,8 +14,15 @@ convention (contexts, views, closures, memos and owners are numbered in creation
   finds in an owner is fixed when the owner is created: the context provided there, else what its parent owner
   sees (`visible`); no later operation changes it.
 
-* ticks (`Op.tick`: the executor runs the pending effects) are **invisible**: a tick is accepted, observes nothing and
-  no function of the history looks at it ("the last locale set" does not depend on when the event loop turns).
+* wired sub-contexts (the property's stated exception "unless the caller wired an initial-locale signal"): a wire has a
+  value — "the locale of the most recent `wireSet` on it, else the locale it was created with" — and a **seen** value —
+  "its value at the most recent tick, else at creation" (`wires`).  A tick **delivers** a wire whose value differs from its
+  seen value: the context then shows the wire's value (`current (.tick :: h)`), exactly as after a tracked `set_locale`
+  (`memoStale`).  So a wired sub-context shows "the locale of the most recent `set*` on it or the most recently delivered
+  wire value, whichever came last";
+* ticks (`Op.tick`: the executor runs the pending effects) are otherwise **invisible**: a tick is accepted, observes nothing
+  and, as long as no wire is due, no function of the history looks at it ("the last locale set" does not depend on when
+  the event loop turns).
 
 An operation naming a view / closure / memo / owner that does not exist is rejected (`Obs.bad`) and leaves no
 trace in the history.
@@ -33,6 +40,7 @@ def nCtx : Hist → Nat
   | .sub _ _ _ :: h => nCtx h + 1
   | .provideRoot _ :: h => nCtx h + 1
   | .provider _ _ _ :: h => nCtx h + 1
+  | .subWired _ _ :: h => nCtx h + 1
   | _ :: h => nCtx h
 
 /-- number of owners created so far -/
@@ -62,6 +70,8 @@ def visible : Hist → Nat → Option Nat
   | .readMemo _ :: h, o => visible h o
   | .useCtx _ :: h, o => visible h o
   | .tick :: h, o => visible h o
+  | .subWired _ _ :: h, o => visible h o
+  | .wireSet _ _ :: h, o => visible h o
 
 /-- which context each view is a view of -/
 def views : Hist → List Nat
@@ -70,6 +80,7 @@ def views : Hist → List Nat
   | .sub _ _ _ :: h => views h ++ [nCtx h]
   | .provideRoot _ :: h => views h ++ [nCtx h]
   | .provider _ _ _ :: h => views h ++ [nCtx h]
+  | .subWired _ _ :: h => views h ++ [nCtx h]
   | .scope v :: h => views h ++ ((views h)[v]?).toList
   | .useCtx o :: h => views h ++ (visible h o).toList
   | _ :: h => views h
@@ -85,6 +96,21 @@ def memoViews : Hist → List Nat
   | [] => []
   | .makeMemo v :: h => memoViews h ++ [v]
   | _ :: h => memoViews h
+
+/-- the wires after `h`, in creation order: the context each feeds, its value (the latest `wireSet` on it, else the locale
+    it was created with) and its seen value (its value at the latest tick, else at creation) -/
+def wires : Hist → List Wire
+  | [] => []
+  | .subWired _ w :: h => wires h ++ [{ ctx := nCtx h, val := w, seen := w }]
+  | .wireSet i l :: h =>
+    match (wires h)[i]? with
+    | some w => (wires h).set i { w with val := l }
+    | none => wires h
+  | .tick :: h => (wires h).map (fun w => { w with seen := w.val })
+  | _ :: h => wires h
+
+/-- what a tick after `h` delivers into context `c`: the value of the wire of `c`, if it differs from its seen value -/
+def due (h : Hist) (c : Nat) : Option Locale := pending (wires h) c
 
 /-- the locale shown by context `c` after `h` -/
 def current : Hist → Nat → Option Locale
@@ -118,7 +144,13 @@ def current : Hist → Nat → Option Locale
   | .readMemo _ :: h, c => current h c
   | .childOwner _ :: h, c => current h c
   | .useCtx _ :: h, c => current h c
-  | .tick :: h, c => current h c
+  | .tick :: h, c =>
+    -- a tick delivers the wire of `c` if it is due
+    match due h c with
+    | some l => some l
+    | none => current h c
+  | .subWired _ w :: h, c => if c = nCtx h then some w else current h c
+  | .wireSet _ _ :: h, c => current h c
 
 /-- the locale a view shows: that of its context -/
 def viewLocale (h : Hist) (v : Nat) : Option Locale :=
@@ -133,7 +165,7 @@ def memoCtx (h : Hist) (i : Nat) : Option Nat :=
   | none => none
 
 /-- must memo `i` be (re)evaluated at its next read?  Yes iff it was never read, or a *tracked* `set_locale` on a
-    view of its context happened since its last read. -/
+    view of its context, or the delivery of a wire into its context, happened since its last read. -/
 def memoStale : Hist → Nat → Bool
   | [], _ => true
   | .makeMemo _ :: h, i => if i = (memoViews h).length then true else memoStale h i
@@ -151,7 +183,9 @@ def memoStale : Hist → Nat → Bool
   | .childOwner _ :: h, i => memoStale h i
   | .provider _ _ _ :: h, i => memoStale h i
   | .useCtx _ :: h, i => memoStale h i
-  | .tick :: h, i => memoStale h i
+  | .tick :: h, i => if ((memoCtx h i).bind (due h)).isSome then true else memoStale h i
+  | .subWired _ _ :: h, i => memoStale h i
+  | .wireSet _ _ :: h, i => memoStale h i
 
 /-- the value memo `i` computed at its last evaluation -/
 def memoCache : Hist → Nat → Option Locale
@@ -174,6 +208,8 @@ def memoCache : Hist → Nat → Option Locale
   | .provider _ _ _ :: h, i => memoCache h i
   | .useCtx _ :: h, i => memoCache h i
   | .tick :: h, i => memoCache h i
+  | .subWired _ _ :: h, i => memoCache h i
+  | .wireSet _ _ :: h, i => memoCache h i
 
 /-- what reading memo `i` returns now -/
 def memoRead (h : Hist) (i : Nat) : Option Locale :=
@@ -208,6 +244,9 @@ def obsAt (h : Hist) : Op → Obs
       | none => .notFound
     else .bad
   | .tick => .none
+  | .subWired none _ => .wired (views h).length (wires h).length
+  | .subWired (some pv) _ => if (viewLocale h pv).isSome then .wired (views h).length (wires h).length else .bad
+  | .wireSet i _ => if i < (wires h).length then .none else .bad
 
 /-- expected observations of a whole sequence, starting after history `h` -/
 def observe (h : Hist) : List Op → List Obs
